@@ -140,8 +140,13 @@ def plan_graph_shards(space, n_max=None, k=None, chunk=64, parts=8, with_ext=Fal
 
 
 def _nonleaf_pairs(ns):
+    """Imports made by a module that has sub modules: of modules unrelated to it, and of its own
+    descendants two or more levels below (a direct child is excluded: the implementation folds that
+    import into the hierarchy edge, and such graphs are outside every property)."""
     inner = [n for n in ns[1:] if any(m.startswith(n + ".") for m in ns)]
-    return [(u, v) for u in inner for v in ns[1:] if u != v and not v.startswith(u + ".") and not u.startswith(v + ".")]
+    out = [(u, v) for u in inner for v in ns[1:] if u != v and not v.startswith(u + ".") and not u.startswith(v + ".")]
+    out += [(u, v) for u in inner for v in ns[1:] if v.startswith(u + ".") and v.count(".") >= u.count(".") + 2]
+    return out
 
 
 def shard_graphs(shard, seed: int = 0):
